@@ -32,6 +32,7 @@ package broker
 //@ ghost ndequeue int
 //@ ghost nterminate int
 //@ ghost dtok int
+//@ ghost dtry int
 //@ ghost ptok int
 //@ ghost stok int
 //@ ghost nqueued int
@@ -101,6 +102,7 @@ package broker
 //@   ensures npublish == old(npublish) + 1 && pubmsg == msg && puback == ack
 //@   modifies npublish, pubmsg, puback
 //@ interface Backend.Dequeue(client *Client) (msg *packet.Message, ack Ack, err error)
+//@   requires [token-held] dtok > npubq
 //@   ensures ndequeue == old(ndequeue) + 1
 //@   ensures [qos] err == nil && msg != nil ==> msg.QOS <= 2
 //@   modifies ndequeue
@@ -118,6 +120,9 @@ package broker
 //@ func chan.send:Client.dequeueTokens(ch int, v int)
 //@   ensures dtok == old(dtok) - 1
 //@   modifies dtok
+//@ func chan.try:Client.dequeueTokens(ch int)
+//@   ensures dtry == old(dtry) + 1
+//@   modifies dtry
 //@ func chan.put:Client.dequeueTokens(ch int, v int)
 //@   modifies nothing
 //@ func chan.put:Client.publishTokens(ch int, v int)
@@ -172,6 +177,7 @@ package broker
 //@ invokes Session.DeletePacket(0): (*Client).acker
 //@ invokes Backend.Setup: (*Client).processConnect
 //@ invokes Backend.Terminate: (*Client).cleanup
+//@ invokes Backend.Dequeue: (*Client).dequeuer
 //@ sends Client.ackQueue: (*Client).processSubscribe$1$1, (*Client).processUnsubscribe$1$1, (*Client).processPublish$1$1, (*Client).processPubrel$1$1
 //@ selectsends Client.ackQueue: nothing
 //@ selectsends Client.dequeueTokens: (*Client).processConnect
@@ -271,9 +277,10 @@ package broker
 // (send's precondition).
 //@ func (c *Client) dequeuer() (err error)
 //@   requires [client] connected(c)
+//@   requires [ghost-init] dtok == 0 && npubq == 0
 //@   ensures [err] err != nil
-//@   modifies saved, dtok, ndequeue, nsent, nsentall, lastid, connack_sp, connack_code, nnodup, npubq, nclose, tdying[c.tomb]
-//@   loop 1 invariant [window] dtok - old(dtok) >= npubq - old(npubq)
+//@   modifies saved, dtok, dtry, ndequeue, nsent, nsentall, lastid, connack_sp, connack_code, nnodup, npubq, nclose, tdying[c.tomb]
+//@   loop 1 invariant [window] dtok >= npubq
 //
 //@ func (c *Client) processConnect(pkt *packet.Connect) (err error)
 //@   requires [client] client_ok(c) && pkt != nil
@@ -289,11 +296,11 @@ package broker
 //@   ensures [will-only-accepted] c.will != old(c.will) ==> authok && nsetup == old(nsetup) + 1
 //@   ensures [resend-all] err == nil ==> nsentall == old(nsentall) + 1 + nall
 //@   ensures [resend-dup] nnodup == old(nnodup)
-//@   ensures [resend-window] err == nil ==> dtok - old(dtok) <= nall
+//@   ensures [resend-window] err == nil ==> dtok - old(dtok) <= nall && dtry - old(dtry) == nall
 //@   ensures [saved] saved == old(saved)
-//@   modifies c.id, c.state, c.session, c.will, c.MaximumKeepAlive, c.ParallelPublishes, c.ParallelSubscribes, c.InflightMessages, c.TokenTimeout, c.PacketCallback, c.Ref, c.publishTokens, c.subscribeTokens, c.dequeueTokens, c.ackQueue, any(packet.Publish.Dup), nauth, authok, nsetup, setup_resumed, nrestore, nall, nsent, nsentall, lastid, connack_sp, connack_code, nnodup, npubq, dtok, ptok, stok, nclose, tdying[c.tomb]
+//@   modifies c.id, c.state, c.session, c.will, c.MaximumKeepAlive, c.ParallelPublishes, c.ParallelSubscribes, c.InflightMessages, c.TokenTimeout, c.PacketCallback, c.Ref, c.publishTokens, c.subscribeTokens, c.dequeueTokens, c.ackQueue, any(packet.Publish.Dup), nauth, authok, nsetup, setup_resumed, nrestore, nall, nsent, nsentall, lastid, connack_sp, connack_code, nnodup, npubq, dtok, dtry, ptok, stok, nclose, tdying[c.tomb]
 //@   loop 4 invariant [resent] 0 <= rangeindex + 1 && rangeindex + 1 <= len(packets) && nall == len(packets) && nsentall == old(nsentall) + 1 + rangeindex + 1 && nnodup == old(nnodup) && nsent[2] == 1 && connack_code == 0 && (connack_sp <==> (!pkt.CleanSession && setup_resumed))
-//@   loop 4 invariant [tokens] dtok - old(dtok) <= rangeindex + 1
+//@   loop 4 invariant [tokens] dtok - old(dtok) <= rangeindex + 1 && dtry - old(dtry) == rangeindex + 1
 //@   loop 4 invariant [stored] forall i int {packets[i]} :: 0 <= i && i < len(packets) ==> packets[i] != nil && typecode(packets[i]) != 0 && as(packets[i], *packet.Publish) != nil && saved[1][idOf(packets[i])] == typecode(packets[i]) && idOf(packets[i]) != 0
 //@   loop 4 invariant [state] authok && nsetup == old(nsetup) + 1 && connected(c) && c.state == 1 && outgoing_ok() && saved == old(saved) && (pkt.Will != nil ==> c.will == pkt.Will) && (pkt.Will == nil ==> c.will == old(c.will))
 
@@ -375,7 +382,7 @@ package broker
 //@   ensures [connect-first] nauth == old(nauth) ==> nsentall == old(nsentall) && nsetup == old(nsetup) && npublish == old(npublish) && nsubscribe == old(nsubscribe) && nunsubscribe == old(nunsubscribe) && saved == old(saved) && c.will == old(c.will) && c.state == old(c.state)
 //@   ensures [accept-first] nsetup == old(nsetup) ==> npublish == old(npublish) && nsubscribe == old(nsubscribe) && nunsubscribe == old(nunsubscribe) && saved == old(saved) && c.will == old(c.will) && nsentall <= old(nsentall) + 1
 //@   ensures [one-connack] nsent[2] <= 1
-//@   modifies c.id, c.state, c.session, c.will, c.MaximumKeepAlive, c.ParallelPublishes, c.ParallelSubscribes, c.InflightMessages, c.TokenTimeout, c.PacketCallback, c.Ref, c.publishTokens, c.subscribeTokens, c.dequeueTokens, c.ackQueue, any(packet.Publish.Dup), nauth, authok, nsetup, setup_resumed, nrestore, nall, saved, nsent, nsentall, lastid, connack_sp, connack_code, nnodup, npubq, npublish, pubmsg, puback, nsubscribe, nunsubscribe, dtok, ptok, stok, nclose, tdying[c.tomb], tstarted[c.tomb]
+//@   modifies c.id, c.state, c.session, c.will, c.MaximumKeepAlive, c.ParallelPublishes, c.ParallelSubscribes, c.InflightMessages, c.TokenTimeout, c.PacketCallback, c.Ref, c.publishTokens, c.subscribeTokens, c.dequeueTokens, c.ackQueue, any(packet.Publish.Dup), nauth, authok, nsetup, setup_resumed, nrestore, nall, saved, nsent, nsentall, lastid, connack_sp, connack_code, nnodup, npubq, npublish, pubmsg, puback, nsubscribe, nunsubscribe, dtok, dtry, ptok, stok, nclose, tdying[c.tomb], tstarted[c.tomb]
 //@   loop 1 invariant [serving] connected(c) && incoming_ok() && nauth == old(nauth) + 1 && nsetup == old(nsetup) + 1 && nsent[2] == 1
 //
 //@ func NewClient(backend Backend, conn transport.Conn) (c *Client)
